@@ -1010,3 +1010,163 @@ Lemma cast_64_to_256 x : val256 (mk256 0 0 0 x) = x.
 Proof. unfold val256; cbn [q0 q1 q2 q3]. lia. Qed.
 Lemma cast_64_to_128 x : val128 (mk128 0 x) = x.
 Proof. unfold val128; cbn [h1 h0]. lia. Qed.
+
+(* ------------------------------------------------------------------ *)
+(* Uint128.QuoRem with a 128-bit divisor: the trial quotient is within one of the quotient *)
+
+Lemma trial_core u v D E V' : 0 <= u < 2^128 -> 0 < D -> D <= v < D + E -> D = V' * E -> 2^63 <= V' -> 2 <= E ->
+  (E = 2 \/ 4 <= E) -> u / v <= u / D <= u / v + 1.
+Proof.
+  intros Hu HD Hv HDE HV HE Hcase.
+  assert (Hv0 : 0 < v) by lia.
+  split.
+  - apply Z.div_le_compat_l; lia.
+  - set (Q := u / v). assert (HQ : 0 <= Q) by (apply Z.div_pos; lia).
+    assert (U1 : u < (Q + 1) * v).
+    { pose proof (Z.mul_succ_div_gt u v Hv0). unfold Q. lia. }
+    assert (Qv : Q * v <= u) by (unfold Q; pose proof (Z.mul_div_le u v Hv0); lia).
+    assert (Goal : u < (Q + 2) * D).
+    { destruct Hcase as [E2 | E4].
+      - subst E. assert (2^64 <= D) by (change (2^64) with (2^63 * 2); nia).
+        assert (Q < 2^64).
+        { apply Z.div_lt_upper_bound; [lia|]. change (2^128) with (2^64 * 2^64) in Hu. nia. }
+        nia.
+      - assert (Q < 2^63).
+        { apply Z.div_lt_upper_bound; [lia|].
+          assert (2^63 * E <= v) by nia.
+          change (2^128) with (2^63 * 2^63 * 4) in Hu. nia. }
+        nia. }
+    apply Z.lt_succ_r. apply Z.div_lt_upper_bound; [lia|]. lia.
+Qed.
+
+Lemma lzcnt_spec x : 1 <= x < W -> 0 <= lzcnt64 x <= 63 /\ 2^63 <= x * 2^(lzcnt64 x) < 2^64.
+Proof.
+  intros Hx. unfold lzcnt64, bitlen. replace (x =? 0) with false by lia.
+  pose proof (Z.log2_spec x ltac:(lia)) as [L1 L2].
+  assert (L0 : 0 <= Z.log2 x) by apply Z.log2_nonneg.
+  assert (L3 : Z.log2 x < 64) by (apply Z.log2_lt_pow2; [lia|rewrite <- W_pow; lia]).
+  replace (64 - (Z.log2 x + 1)) with (63 - Z.log2 x) by lia.
+  split; [lia|].
+  assert (P1 : 2^(Z.log2 x) * 2^(63 - Z.log2 x) = 2^63) by (rewrite <- Z.pow_add_r by lia; f_equal; lia).
+  assert (P2 : 2^(Z.succ (Z.log2 x)) * 2^(63 - Z.log2 x) = 2^64) by (rewrite <- Z.pow_add_r by lia; f_equal; lia).
+  assert (0 < 2^(63 - Z.log2 x)) by (apply Z.pow_pos_nonneg; lia).
+  nia.
+Qed.
+
+Lemma div2_div a m : 0 < m -> (a / 2) / m = a / (2 * m).
+Proof. intros. rewrite Z.div_div by lia. reflexivity. Qed.
+
+Lemma u128_quorem_exact u v : wf128 u -> wf128 v -> val128 v <> 0 ->
+  exists q r, u128_quorem u v = Ok (q, r) /\ wf128 q /\ wf128 r /\
+              val128 q = val128 u / val128 v /\ val128 r = val128 u mod val128 v.
+Proof.
+  intros Hu Hv Hnz. unfold u128_quorem.
+  destruct (h1 v =? 0) eqn:E1.
+  - apply Z.eqb_eq in E1. destruct v as [v1 v0]; cbn [h1 h0] in *. subst v1.
+    unfold wf128, val128 in Hv, Hnz; cbn [h1 h0] in Hv, Hnz.
+    destruct (u128_quorem64_exact u v0 Hu ltac:(unfold inW; lia) ltac:(lia)) as (q' & r' & E & Hq & Vq & Vr).
+    rewrite E. exists q', (mk128 0 r'). split; [reflexivity|]. split; [assumption|].
+    pose proof (Z.mod_pos_bound (val128 u) v0 ltac:(lia)) as B. pose proof W_pos as WP.
+    assert (V0 : val128 {| h1 := 0; h0 := v0 |} = v0) by (unfold val128; cbn [h1 h0]; lia).
+    assert (R0 : val128 {| h1 := 0; h0 := r' |} = r') by (unfold val128; cbn [h1 h0]; lia).
+    rewrite V0, R0. split; [unfold wf128; cbn [h1 h0]; lia|]. split; assumption.
+  - apply Z.eqb_neq in E1.
+    pose proof (val128_range u Hu) as Ru. pose proof (val128_range v Hv) as Rv.
+    set (n := lzcnt64 (h1 v)).
+    assert (Hv1 : 1 <= h1 v < W) by (destruct Hv; lia).
+    destruct (lzcnt_spec (h1 v) Hv1) as [Hn Hvn]. fold n in Hn, Hvn.
+    assert (Hp : 0 < 2^n) by (apply Z.pow_pos_nonneg; lia).
+    (* the normalised divisor does not wrap *)
+    destruct (u128_shl_spec v n Hv ltac:(lia)) as [Hw1 Vv1].
+    pose proof (pq_W n ltac:(lia)) as HnE0.
+    assert (HEp : 0 < 2^(64 - n)) by (apply Z.pow_pos_nonneg; lia).
+    assert (Hv1E : h1 v + 1 <= 2^(64 - n)).
+    { rewrite <- W_pow in Hvn. rewrite <- HnE0 in Hvn. nia. }
+    assert (Vfit : val128 v * 2^n < W * W).
+    { unfold val128. destruct Hv as [_ Hv0]. rewrite <- HnE0 at 2. rewrite <- HnE0 in Hv0 at 1.
+      set (p := 2^n) in *. set (e := 2^(64-n)) in *. nia. }
+    rewrite Z.mod_small in Vv1 by (split; [nia|exact Vfit]).
+    set (v1 := u128_shl v n) in *.
+    assert (HV' : h1 v1 = (val128 v * 2^n) / W).
+    { rewrite <- Vv1. unfold val128. destruct Hw1 as [_ Hl]. apply Z.div_unique with (h0 v1); lia. }
+    assert (BV' : 2^63 <= h1 v1 < 2^64).
+    { destruct Hw1 as [Hh _]. rewrite <- W_pow. split; [|lia]. rewrite HV'.
+      apply Z.div_le_lower_bound; [apply W_pos|]. unfold val128. destruct Hv as [_ Hv0]. rewrite W_pow in *. nia. }
+    (* the halved dividend *)
+    destruct (u128_shr_spec u 1 Hu ltac:(lia)) as [Hu1 Vu1]. change (2^1) with 2 in Vu1.
+    set (u1 := u128_shr u 1) in *.
+    assert (Hh1 : 0 <= h1 u1 < h1 v1).
+    { destruct Hu1 as [[H0 _] [L0 L1]]. split; [lia|].
+      assert (val128 u1 < 2^127) by (rewrite Vu1; apply Z.div_lt_upper_bound; [lia|]; change (2 * 2^127) with (W * W); lia).
+      unfold val128 in H. rewrite W_pow in *. change (2^127) with (2^63 * 2^64) in H. nia. }
+    rewrite (div64_some _ _ _ Hh1). fold (val128 u1). rewrite Vu1.
+    set (V' := h1 v1) in *. set (U := val128 u) in *. set (V := val128 v) in *.
+    assert (HVpos : 0 < V') by lia.
+    unfold shr64. replace (63 - n <? 64) with true by lia.
+    set (E := 2^(64 - n)).
+    assert (HE : 2^(63 - n) * 2 = E) by (unfold E; replace (64 - n) with (Z.succ (63 - n)) by lia; rewrite Z.pow_succ_r by lia; lia).
+    assert (HEpos : 0 < 2^(63 - n)) by (apply Z.pow_pos_nonneg; lia).
+    assert (HnE : 2^n * E = W) by (unfold E; apply pq_W; lia).
+    assert (Ht : U / 2 / V' / 2^(63 - n) = U / (V' * E)).
+    { rewrite Z.div_div by lia. rewrite Z.div_div by nia. f_equal. lia. }
+    rewrite Ht. set (D := V' * E) in *.
+    assert (HD : D <= V < D + E).
+    { pose proof (Z.mul_div_le (V * 2^n) W W_pos) as A1.
+      pose proof (Z.mul_succ_div_gt (V * 2^n) W W_pos) as A2. rewrite <- HV' in A1, A2. fold V' in A1, A2.
+      unfold D. split.
+      - apply (Z.mul_le_mono_pos_l _ _ (2^n) Hp).
+        replace (2^n * (V' * E)) with (2^n * E * V') by ring. rewrite HnE. replace (2^n * V) with (V * 2^n) by ring. exact A1.
+      - apply (Z.mul_lt_mono_pos_l (2^n) _ _ Hp).
+        replace (2^n * (V' * E + E)) with (2^n * E * Z.succ V') by ring. rewrite HnE. replace (2^n * V) with (V * 2^n) by ring. exact A2. }
+    assert (HEcase : E = 2 \/ 4 <= E).
+    { destruct (Z.eq_dec n 63) as [->|]; [left; reflexivity|right].
+      unfold E. change 4 with (2^2). apply Z.pow_le_mono_r; lia. }
+    assert (HE2 : 2 <= E) by lia.
+    assert (HU : 0 <= U < 2^128) by (change (2^128) with (W * W); exact Ru).
+    assert (HD0 : 0 < D) by (unfold D; apply Z.mul_pos_pos; lia).
+    destruct (trial_core U V D E V' HU HD0 HD eq_refl (proj1 BV') HE2 HEcase) as [T1 T2].
+    set (t := U / D) in *. set (Q := U / V) in *.
+    assert (HV64 : W <= V).
+    { unfold V, val128. destruct Hv as [_ Hv0].
+      assert (1 * W <= h1 v * W) by (apply Z.mul_le_mono_nonneg_r; [pose proof W_pos|]; lia). lia. }
+    assert (HQ : 0 <= Q < W).
+    { split; [apply Z.div_pos; lia|apply Z.div_lt_upper_bound; [lia|]].
+      apply Z.lt_le_trans with (W * W); [lia|]. apply Z.mul_le_mono_nonneg_r; [pose proof W_pos|]; lia. }
+    assert (U1 : U < (Q + 1) * V) by (pose proof (Z.mul_succ_div_gt U V ltac:(lia)); unfold Q; lia).
+    assert (Qv : Q * V <= U) by (unfold Q; pose proof (Z.mul_div_le U V ltac:(lia)); lia).
+    set (tq := if t =? 0 then t else t - 1).
+    assert (Htq : Q - 1 <= tq <= Q /\ 0 <= tq).
+    { unfold tq. destruct (t =? 0) eqn:Et; [apply Z.eqb_eq in Et|apply Z.eqb_neq in Et]; lia. }
+    assert (Wtq : inW tq) by (unfold inW; lia).
+    (* all the remaining arithmetic is linear in the atoms U, V, P = V*tq *)
+    assert (HP1 : V * tq <= U).
+    { apply Z.le_trans with (V * Q); [apply Z.mul_le_mono_nonneg_l; lia|]. rewrite Z.mul_comm. exact Qv. }
+    assert (HP2 : U - V * tq < 2 * V).
+    { assert (V * (Q - 1) <= V * tq) by (apply Z.mul_le_mono_nonneg_l; lia).
+      replace (V * (Q - 1)) with (Q * V - V) in H by ring.
+      replace ((Q + 1) * V) with (Q * V + V) in U1 by ring. lia. }
+    assert (HPW : V * tq < W * W) by lia.
+    destruct (u128_mul64_exact v tq Hv Wtq) as [M1 _]. fold V in M1.
+    destruct (M1 HPW) as (m & Em & Hm & Vm). rewrite Em.
+    destruct (u128_sub_exact u m Hu Hm) as [S1 _]. fold U in S1.
+    destruct (S1 ltac:(rewrite Vm; exact HP1)) as (r & Er & Hr & Vr). rewrite Er.
+    rewrite (u128_cmp_spec r v Hr Hv). fold V. rewrite Vr, Vm.
+    assert (Wq : wf128 (mk128 0 tq)) by (unfold wf128; cbn [h1 h0]; pose proof W_pos; unfold inW in Wtq; lia).
+    assert (Vq0 : val128 (mk128 0 tq) = tq) by (unfold val128; cbn [h1 h0]; lia).
+    set (P := V * tq) in *.
+    assert (more : (0 <=? match U - P ?= V with Eq => 0 | Lt => -1 | Gt => 1 end) = (V <=? U - P)).
+    { destruct (Z.compare_spec (U - P) V); simpl; symmetry; [apply Z.leb_le|apply Z.leb_gt|apply Z.leb_le]; lia. }
+    rewrite more. destruct (V <=? U - P) eqn:C; [apply Z.leb_le in C|apply Z.leb_gt in C].
+    + destruct (u128_add64_exact (mk128 0 tq) 1 Wq ltac:(unfold inW; pose proof W_pos; lia)) as [A1 _].
+      destruct (A1 ltac:(rewrite Vq0; rewrite W_val; unfold inW in Wtq; rewrite W_val in Wtq; lia)) as (q & Eq & Hq & Vq). rewrite Eq.
+      destruct (u128_sub_exact r v Hr Hv) as [S2 _]. fold V in S2.
+      destruct (S2 ltac:(rewrite Vr, Vm; fold P; lia)) as (r2 & Er2 & Hr2 & Vr2). rewrite Er2.
+      exists q, r2. split; [reflexivity|]. split; [assumption|]. split; [assumption|].
+      rewrite Vq, Vq0, Vr2, Vr, Vm. fold P.
+      assert (EQ : U = V * (tq + 1) + (U - P - V)) by (unfold P; ring).
+      split; [apply Z.div_unique with (U - P - V); [left; lia|exact EQ]|apply Z.mod_unique with (tq + 1); [left; lia|exact EQ]].
+    + exists (mk128 0 tq), r. split; [reflexivity|]. split; [assumption|]. split; [assumption|].
+      rewrite Vq0, Vr, Vm. fold P.
+      assert (EQ : U = V * tq + (U - P)) by (unfold P; ring).
+      split; [apply Z.div_unique with (U - P); [left; lia|exact EQ]|apply Z.mod_unique with tq; [left; lia|exact EQ]].
+Qed.
